@@ -51,6 +51,7 @@ def sess_concat(seed, sep='\n'):
         try:
             dc, pairs = kp.concat(contents, separator=sep)
             ev['pairs'] = [[int(a), int(b)] for a, b in pairs]
+            ev['mst'] = [m + 1 for m in dc.measure_start_tree_stages]
             ev['same'] = session.snapshot(dc) == base
             ev['exports'] = []
             for a, b in pairs:
@@ -60,7 +61,7 @@ def sess_concat(seed, sep='\n'):
                 except Exception as ex:  # noqa
                     ev['exports'].append({'ok': False, 'grid': [], 'exc': type(ex).__name__})
         except Exception as ex:  # noqa
-            ev.update(pairs=[], same=False, exports=[], exc=type(ex).__name__)
+            ev.update(pairs=[], same=False, exports=[], exc=type(ex).__name__, mst=[])
         evs.append(ev)
     tags = dp.features(lines) | {'concat', 'sep=' + repr(sep)}
     return dp.finish_session(lines, evs, text, seed, tags)
